@@ -195,8 +195,7 @@ Module PCTT.
     stuck (step c) s -> final s.
   Proof. intros c s R P Hs. destruct (reach_inv13 c s R) as [I K]. eapply stuck_final; eauto. Qed.
 
-  (* the full termination statement (no infinite run after the close, under the fuel bound on timer events);
-     not proved for this model *)
+  (* the full termination statement; proved in PConsTerminates.v *)
   Definition pc_terminates_statement : Prop :=
     forall c, Terminates (step c) (fun s => Reach (step c) (init c) s /\ dying (ch s) = true) final.
 End PCTT.
